@@ -39,6 +39,10 @@ pub const CORPUS: &[(&str, &str)] = &[
     ("same-rhs", "S -> A a | B b ; A -> c ; B -> c"),
     ("sep-list", "L -> L , x | x"),
     ("right-list", "L -> x L |"),
+    ("right-list-no-eps", "L -> x L | x"),
+    ("right-sep-list-no-eps", "L -> x , L | x"),
+    ("right-list-of-items", "L -> I | I , L ; I -> n | ( L )"),
+    ("left-list-of-items", "L -> I | L , I ; I -> n | ( L )"),
     ("opt-trailer", "S -> L O ; L -> L x | x ; O -> semi |"),
     ("unit-chain", "S -> A ; A -> B ; B -> C ; C -> c |"),
     ("hidden-left-rec", "S -> A S b | c ; A ->"),
@@ -435,7 +439,7 @@ pub fn nested_cfg(rng: &mut Rng) -> (Cfg, Vec<bool>) {
 /// `permute_declarations`.  Fix-points that stop a round early, or FIRST/nullable computations
 /// that depend on declaration order, show here.
 pub fn nullable_chain_cfg(rng: &mut Rng) -> (Cfg, Vec<bool>) {
-    let k = rng.range(2, 5);
+    let k = *rng.pick(&[2usize, 3, 3, 4, 5, 6, 8, 12]);
     // nonterminals: 0 = S, 1 = T, 2 = U, 3.. = chain A1..Ak ; terminals: 0 = t, 1 = x, 2 = y, 3 = z
     let a = |i: usize| Sym::N(3 + i);
     let mut rules = vec![];
@@ -473,6 +477,15 @@ pub fn nullable_chain_cfg(rng: &mut Rng) -> (Cfg, Vec<bool>) {
                 rules.push(Rule { lhs: 3 + i, rhs: vec![a(i + 1), a(i + 1)] });
             }
         } else {
+            // back edges from the bottom link to the top / middle of the chain: facts (nullability, then
+            // terminals) have to climb the chain several times, which needs ~2n rounds of a naive fix-point
+            if rng.chance(0.4) {
+                let j = if rng.chance(0.6) { 0 } else { rng.below(k) };
+                rules.push(Rule { lhs: 3 + i, rhs: vec![a(j), Sym::T(3)] });
+            }
+            if rng.chance(0.15) {
+                rules.push(Rule { lhs: 3 + i, rhs: vec![a(0), a(rng.below(k)), Sym::T(2)] });
+            }
             match rng.below(4) {
                 0 => rules.push(Rule { lhs: 3 + i, rhs: vec![Sym::T(3)] }),
                 1 => {
@@ -497,7 +510,7 @@ pub fn big_cfg(rng: &mut Rng, max_states_hint: usize) -> (Cfg, Vec<bool>) {
     match rng.below(6) {
         4 => {
             // one production with a very long right-hand side (16..70 symbols), inside a small list grammar
-            let len = (*rng.pick(&[16usize, 17, 31, 32, 33, 64, 65, 70])).min(70);
+            let len = *rng.pick(&[16usize, 17, 31, 32, 33, 64, 65, 100, 127, 128, 129, 255, 256, 257, 258, 300]);
             let nt = 6;
             let mut rhs: Vec<Sym> = (0..len).map(|i| if i % 7 == 3 { Sym::N(1) } else { Sym::T(i % (nt - 1)) }).collect();
             rhs[0] = Sym::T(nt - 1);
@@ -512,7 +525,7 @@ pub fn big_cfg(rng: &mut Rng, max_states_hint: usize) -> (Cfg, Vec<bool>) {
         }
         5 => {
             // many rules and many nonterminals: n nonterminals with 3 alternatives each (3n rules)
-            let n = n.min(max_states_hint / 5).max(3);
+            let n = if max_states_hint >= 400 && rng.chance(0.3) { *rng.pick(&[85usize, 86, 100, 128]) } else { n.min(max_states_hint / 5).max(3) };
             let mut rules = vec![];
             for i in 0..n {
                 rules.push(Rule { lhs: i, rhs: vec![Sym::T(0), Sym::N((i + 1) % n), Sym::T(1)] });
@@ -535,7 +548,7 @@ pub fn big_cfg(rng: &mut Rng, max_states_hint: usize) -> (Cfg, Vec<bool>) {
         }
         1 => {
             // a chain of n nonterminals: N_i -> a N_{i+1} | b N_{i+1} c ; N_n -> d   (≈ 6n states)
-            let n = n.min(max_states_hint / 6).max(3);
+            let n = if max_states_hint >= 400 && rng.chance(0.3) { *rng.pick(&[127usize, 128, 129, 255, 256, 257, 300]) } else { n.min(max_states_hint / 6).max(3) };
             let mut rules = vec![];
             for i in 0..n {
                 rules.push(Rule { lhs: i, rhs: vec![Sym::T(0), Sym::N(i + 1)] });
@@ -574,6 +587,78 @@ pub fn big_cfg(rng: &mut Rng, max_states_hint: usize) -> (Cfg, Vec<bool>) {
             (Cfg { nn: 2, nt: n + 1, rules, start: 0 }, vec![true, true])
         }
     }
+}
+
+/// Add a dead nonterminal (a variant-less enum, or one with only left-/self-recursive rules) and
+/// 1-2 alternatives that mention it after at least one live symbol.  The language is unchanged,
+/// but FIRST/closure computations and the error position (defined through the canonical LR(1)
+/// parser for such grammars) have to treat the dead symbol correctly.
+pub fn add_dead_nonterminal(cfg: &Cfg, force: &[bool], rng: &mut Rng) -> (Cfg, Vec<bool>) {
+    let mut rules = cfg.rules.clone();
+    let dead = cfg.nn;
+    let mut force = force.to_vec();
+    force.resize(cfg.nn, false);
+    force.push(true);
+    let mut nt = cfg.nt;
+    for _ in 0..rng.range(1, 2) {
+        if cfg.rules.is_empty() {
+            break;
+        }
+        if rng.chance(0.6) {
+            // an alternative with a prefix of its own: `X -> t B Dead [tail]` with a fresh (or random)
+            // terminal t, a live nonterminal B directly before the dead symbol, X mostly the start symbol
+            let lhs = if rng.chance(0.7) { cfg.start } else { rng.below(cfg.nn) };
+            let t = if rng.chance(0.7) && nt < crate::lr::MAX_T {
+                nt += 1;
+                nt - 1
+            } else if nt > 0 {
+                rng.below(nt)
+            } else {
+                continue;
+            };
+            let b = rng.below(cfg.nn);
+            let mut rhs = vec![Sym::T(t), Sym::N(b), Sym::N(dead)];
+            if rng.chance(0.5) {
+                rhs.push(Sym::T(rng.below(nt)));
+            }
+            if !rules.iter().any(|r| r.lhs == lhs && r.rhs == rhs) {
+                let pos = rules.iter().rposition(|r| r.lhs == lhs).map(|p| p + 1).unwrap_or(rules.len());
+                rules.insert(pos, Rule { lhs, rhs });
+                force[lhs] = true;
+            }
+            continue;
+        }
+        let base = rng.pick(&cfg.rules).clone();
+        let mut rhs = base.rhs.clone();
+        if rhs.is_empty() {
+            if nt == 0 {
+                continue;
+            }
+            rhs.push(Sym::T(rng.below(nt)));
+        }
+        // the dead symbol goes after at least one live symbol
+        let at = rng.range(1, rhs.len());
+        rhs.insert(at, Sym::N(dead));
+        if nt > 0 && rng.chance(0.5) {
+            rhs.push(Sym::T(rng.below(nt)));
+        }
+        if !rules.iter().any(|r| r.lhs == base.lhs && r.rhs == rhs) {
+            let pos = rules.iter().rposition(|r| r.lhs == base.lhs).map(|p| p + 1).unwrap_or(rules.len());
+            rules.insert(pos, Rule { lhs: base.lhs, rhs });
+            force[base.lhs] = true;
+        }
+    }
+    match rng.below(3) {
+        0 => {} // variant-less enum
+        1 => rules.push(Rule { lhs: dead, rhs: vec![Sym::N(dead)] }),
+        _ => {
+            if nt > 0 {
+                rules.push(Rule { lhs: dead, rhs: vec![Sym::N(dead), Sym::T(rng.below(nt))] });
+            }
+        }
+    }
+    rules.sort_by_key(|r| r.lhs); // stable: keeps rules grouped per nonterminal in declaration order
+    (Cfg { nn: cfg.nn + 1, nt, rules, start: cfg.start }, force)
 }
 
 /// Relabel nonterminals and terminals by random permutations: the same grammar with a different
@@ -682,7 +767,12 @@ pub fn grammar_for_case(rng: &mut Rng, index: u64) -> (Source, Cfg, Vec<bool>) {
         let (cfg, _, _, force) = cfg_from_text(CORPUS[index as usize].1);
         return (Source::Corpus, cfg, force);
     }
-    let (source, cfg, force) = grammar_for_case_inner(rng);
+    let (source, mut cfg, mut force) = grammar_for_case_inner(rng);
+    if source != Source::Big && rng.chance(0.08) {
+        let (c, f) = add_dead_nonterminal(&cfg, &force, rng);
+        cfg = c;
+        force = f;
+    }
     if rng.chance(0.5) {
         let (c, f) = permute_declarations(&cfg, &force, rng);
         return (source, c, f);
@@ -854,10 +944,55 @@ impl SmallScope {
 /// long sentences do not need a deep stack.  `None` if the start symbol is
 /// unproductive.
 pub fn random_sentence(cfg: &Cfg, an: &Analysis, rng: &mut Rng, target: usize) -> Option<Vec<usize>> {
+    random_sentence_mode(cfg, an, rng, target, false)
+}
+
+/// `monotone`: every nonterminal gets one preferred rule for the whole derivation (followed with
+/// probability 0.92 while it fits), which yields long *pure* chains - one list of hundreds of
+/// elements, one nesting hundreds deep - instead of a mixture.
+pub fn random_sentence_mode(cfg: &Cfg, an: &Analysis, rng: &mut Rng, target: usize, monotone: bool) -> Option<Vec<usize>> {
     if !an.productive[cfg.start] {
         return None;
     }
+    let preferred: Vec<Option<usize>> = (0..cfg.nn)
+        .map(|n| {
+            let c: Vec<usize> = cfg.rules_of(n).filter(|r| an.rule_min_len[*r] != usize::MAX).collect();
+            if c.is_empty() {
+                None
+            } else {
+                Some(*rng.pick(&c))
+            }
+        })
+        .collect();
     let (height, rule_height) = heights(cfg);
+    // recursive rules (some right-hand-side nonterminal derives a form containing the left-hand side):
+    // while far below the target they are preferred, so that long sentences really are long lists /
+    // deep nestings instead of many short phrases
+    let recursive: Vec<bool> = if cfg.nn <= 48 {
+        let n = cfg.nn;
+        let mut reach = vec![vec![false; n]; n];
+        for r in &cfg.rules {
+            for s in &r.rhs {
+                if let Sym::N(m) = s {
+                    reach[r.lhs][*m] = true;
+                }
+            }
+        }
+        for k in 0..n {
+            for i in 0..n {
+                if reach[i][k] {
+                    for j in 0..n {
+                        if reach[k][j] {
+                            reach[i][j] = true;
+                        }
+                    }
+                }
+            }
+        }
+        cfg.rules.iter().map(|r| r.rhs.iter().any(|s| matches!(s, Sym::N(m) if *m == r.lhs || reach[*m][r.lhs]))).collect()
+    } else {
+        vec![false; cfg.rules.len()]
+    };
     let mut out = vec![];
     let mut stack = vec![Sym::N(cfg.start)];
     let mut rest_min: usize = an.min_len[cfg.start];
@@ -878,8 +1013,16 @@ pub fn random_sentence(cfg: &Cfg, an: &Analysis, rng: &mut Rng, target: usize) -
                     .copied()
                     .filter(|r| out.len() + rest_min + an.rule_min_len[*r] <= target)
                     .collect();
-                let r = if !fits.is_empty() && steps < 20 * target + 200 {
-                    *rng.pick(&fits)
+                let pref = preferred[n].filter(|p| monotone && fits.contains(p));
+                let r = if let (Some(p), true) = (pref, steps < 20 * target + 200 && rng.chance(0.92)) {
+                    p
+                } else if !fits.is_empty() && steps < 20 * target + 200 {
+                    let growing: Vec<usize> = fits.iter().copied().filter(|r| recursive[*r]).collect();
+                    if !growing.is_empty() && (out.len() + rest_min) * 5 < target * 4 && rng.chance(0.9) {
+                        *rng.pick(&growing)
+                    } else {
+                        *rng.pick(&fits)
+                    }
                 } else {
                     // forced termination: strictly decreasing derivation height
                     *cands
